@@ -27,13 +27,15 @@ type C04Scenario struct {
 
 func (C04) ID() string { return "C04" }
 func (C04) Rule() string {
-	return "layer histories as operation batches on a stateful store: 1-5 real layers + 0-3 empty history entries in any arrangement (valid, missing or inconsistent histories) over a universe of <=10 paths of depth <=4 on the alphabet {a,b,c,x,y}; per layer 0-6 operations: regular file (content tagged with layer and path), directory, symlink (absolute or relative target inside the root), whiteout of a file or of a directory at any height above existing files, opaque marker, non-directory replacing a directory and vice versa, whiteout + re-create in one layer; explicit parent-directory entries for all / some / no entries; names bare, './'-prefixed or absolute, directories with or without trailing slash; stream order parent-first or a seeded permutation; stream chunking seeded; requirer all / explicit path list / none; 1 in 8 scenarios with MaxFileBytes in {8,10,12} so that some files are skipped by the loader, 1 in 12 symlinks with a target outside the root (also skipped): skipped entries are modelled as absent from their layer; names that are string prefixes of sibling names (a / ab / a-); loaded through FromV1Image (simulated v1.Image) or FromTarball (real docker-save tarball). Oracle: RefOverlay(D) - OCI overlay reference model with named deviations; every chain-layer view is compared by recursive ReadDir walk AND by direct Stat/Open of every universe path and every whiteout spelling of it; UnpackSquashed into the sandbox vs the final view; requirer law against the fully loaded views. evaluation = one scenario (1-2 image loads + 1 squashed unpack, all views); non-trivial = at least one deletion (whiteout, opaque marker, or type change of an existing path) takes effect on an existing entry; distinct = distinct scenario JSON"
+	return "layer histories as operation batches on a stateful store: 1-5 real layers + 0-3 empty history entries in any arrangement (valid, missing or inconsistent histories) over a universe of <=10 paths of depth <=4 on the alphabet {a,b,c,x,y}; per layer 0-6 operations: regular file (content tagged with layer and path), directory, symlink (absolute or relative target inside the root), whiteout of a file or of a directory at any height above existing files, opaque marker, non-directory replacing a directory and vice versa, whiteout + re-create in one layer; explicit parent-directory entries for all / some / no entries; names bare, './'-prefixed or absolute, directories with or without trailing slash; stream order parent-first or a seeded permutation; stream chunking seeded; requirer all / explicit path list / none; 1 in 8 scenarios with MaxFileBytes in {8,10,12} so that some files are skipped by the loader, 1 in 12 symlinks with a target outside the root (also skipped): skipped entries are modelled as absent from their layer; names that are string prefixes of sibling names (a / ab / a-) and names starting with the characters of the whiteout prefix (hosts, h, w, .w); loaded through FromV1Image (simulated v1.Image) or FromTarball (real docker-save tarball). Oracle: RefOverlay(D) - OCI overlay reference model with named deviations; every chain-layer view is compared by recursive ReadDir walk AND by direct Stat/Open of every universe path and every whiteout spelling of it; UnpackSquashed into the sandbox vs the final view; requirer law against the fully loaded views. evaluation = one scenario (1-2 image loads + 1 squashed unpack, all views); non-trivial = at least one deletion (whiteout, opaque marker, or type change of an existing path) takes effect on an existing entry; distinct = distinct scenario JSON"
 }
 
 // names include string prefixes of each other (a / ab / a-) - siblings are told apart by path
 // component, not by string prefix
-var c04Segs = []string{"a", "b", "c", "a", "b", "ab"}
-var c04Leaf = []string{"a", "b", "c", "x", "y", "ab", "a-"}
+// ... and names that start with the characters of the whiteout prefix (".", "w", "h"): a whiteout
+// must strip the literal prefix ".wh.", not a character set
+var c04Segs = []string{"a", "b", "c", "a", "b", "ab", "h"}
+var c04Leaf = []string{"a", "b", "c", "x", "y", "ab", "a-", "hosts", "h", ".w", "w"}
 
 func genUniverse(rt *rapid.T) []string {
 	n := rapid.IntRange(3, 10).Draw(rt, "universe")
